@@ -17,6 +17,11 @@ claim('C01', 'CrossHair symbolic execution of the real Earley parser over lazily
       'Bounded: for each corpus grammar every token string up to the length bound (and every class-string up to the character bound) is explored by the solver-closed path tree; '
       'acceptance must equal membership in the reference semantics. Grammars are a stated corpus, not all grammars.',
       'Trusted: CPython re, CrossHair path exhaustion (cross-checked by vacuity twins), the refsem oracle. Bounds in evidence.', '3/C01')
+claim('C02', 'CrossHair symbolic execution of the real LALR table construction (symbolic grammar-template indices, unbounded symbolic rule priorities) and of the real '
+      'parser loop fed a lazily realised symbolic token sequence, vs. a canonical-LR(1)-merged reference automaton',
+      'Bounded: every grammar of the stated template and corpus, every token string up to the bound; state-by-state table equality closes the per-grammar "all states" quantifier; '
+      'reduce/reduce priority resolution is decided for all integer priorities.',
+      'Trusted: refsem.lalrref (textbook construction), CrossHair path exhaustion (vacuity twins). Grammars with useless symbols are skipped and counted.', '3/C02')
 claim('C06', 'z3 regex-theory queries on sre_parse translations of the real terminal regexps (newline lemma, unbounded over strings) + CrossHair symbolic execution of LineCounter '
       'from an arbitrary integer pre-state + CrossHair over all class-strings through every lexer',
       'The newline lemma is decided for all strings per terminal spelling; the counter step is inductive over unbounded integer state with a bounded token; the end-to-end part is bounded by '
